@@ -96,6 +96,26 @@ def vc_access(ctx):
         if is_call(nr, 'map') and len(nr[2]) == 2 and nr[2][1][0] == 'closure' and is_call(drop_lv(nr[2][0]), 'next'):
             src = drop_lv(nr[2][0])[2][0]
             ok2 = param_path(versionless(src)) == (1, (fld,)) and entry_to_dot(nr[2][1], None)
+        if not ok2:
+            # spelled with `?` / match: every `Some(..)` it can return is Dot{actor: e.0, counter: e.1} of the entry e that the
+            # inner iterator just yielded; the other alternatives are `None`
+            nn = normal(facts, interp(facts, nb).ret)
+            somes = [x for x in phi_alts(nn) if x[0] == 'agg' and x[2] == 'Some']
+            rest = [x for x in phi_alts(nn) if not (x[0] == 'agg' and x[2] in ('Some', 'None')) and not is_call(x, 'from_residual')]
+            good = bool(somes) and not rest
+            for x in somes:
+                dp_ = dot_parts(facts, x[3][0][1])
+                if not dp_:
+                    good = False
+                    continue
+                a, c = versionless(dp_[0]), versionless(dp_[1])
+                if not (a[0] == 'field' and c[0] == 'field' and a[2] == '0' and c[2] == '1' and a[1] == c[1]):
+                    good = False
+                    continue
+                nx = [st for st in subterms(a[1]) if is_call(st, 'next') and st[2] and param_path(versionless(st[2][0])) == (1, (fld,))]
+                if not nx:
+                    good = False
+            ok2 = good
     ctx.check(ok and ok2, 'into_iter', body, 'consumes dots, every entry as Dot{actor, counter}',
               'VClock::into_iter / IntoIter::next do not yield every entry of dots as Dot{actor, counter}')
     # from_iter: apply every dot to an empty clock
